@@ -23,18 +23,19 @@ structure FnSym where
   arity : Nat
   tpl : List (List Ch)          -- index = format (c, cpp, mql, python)
 
-inductive TermDisp where
-  | lit (s : List Ch)           -- return "..."
+/-- one operand of the string concatenation a terminal's display() returns -/
+inductive TPart where
+  | lit (s : List Ch)           -- "..."
   | toStrD                      -- std::to_string(double)
   | toStrI                      -- std::to_string(int) (of static_cast<int>(v) or of an int member)
   | name                        -- name()
-  | quote                       -- "\"" + val_ + "\""
+  | quote                       -- quote_str(val_) = "\"" + val_ + "\""
   deriving DecidableEq, Repr
 
 structure TmSym where
   key : String
   name : List Ch
-  disp : List TermDisp
+  disp : List (List TPart)      -- index = format
 
 def FnSym.tplOf (s : FnSym) (f : Fmt) : List Ch := s.tpl.getD f.idx []
 
@@ -97,16 +98,27 @@ def truncF64 (bits : Nat) : Int :=
   let a : Nat := if 0 ≤ ex then mant * 2 ^ ex.toNat else mant / 2 ^ (-ex).toNat
   if sign = 1 then - (a : Int) else a
 
-def termStr (tms : List TmSym) (f : Fmt) (k : Nat) (text : List Ch) (bits : Nat) : List Ch :=
+def partStr (text : List Ch) (bits : Nat) : TPart → List Ch
+  | .lit s => s
+  | .toStrD => fmtF64 bits
+  | .toStrI => fmtInt (truncF64 bits)
+  | .name => text
+  | .quote => 34 :: text ++ [34]
+
+/-- `terminal::cast(g.sym)->display(g.par, f)` -/
+def dispStr (tms : List TmSym) (f : Fmt) (k : Nat) (text : List Ch) (bits : Nat) : List Ch :=
   match tms[k]? with
   | none => []
-  | some t =>
-    match t.disp.getD f.idx (.lit []) with
-    | .lit s => s
-    | .toStrD => fmtF64 bits
-    | .toStrI => fmtInt (truncF64 bits)
-    | .name => text
-    | .quote => 34 :: text ++ [34]
+  | some t => (t.disp.getD f.idx []).flatMap (partStr text bits)
+
+/-- `if (terminal && !ret.empty() && ret.front() == '-') ret = "(" + ret + ")"` -/
+def wrapNeg : List Ch → List Ch
+  | 45 :: s => 40 :: 45 :: s ++ [41]
+  | s => s
+
+/-- what language_() prints for a terminal gene -/
+def termStr (tms : List TmSym) (f : Fmt) (k : Nat) (text : List Ch) (bits : Nat) : List Ch :=
+  wrapNeg (dispStr tms f k text bits)
 
 /-! ### replace_all and language() -/
 
